@@ -376,6 +376,8 @@ impl Run {
     /// Wall-clock budget for the generators of this run; when exceeded further cases are dropped and the run is
     /// reported as capped (exhaustive=false). Never turns into a verdict.
     pub fn budget_secs(&self, secs: f64) {
+        // VERIF_BUDGET_SCALE: stretch all time budgets (for runs on a heavily loaded machine)
+        let secs = secs * std::env::var("VERIF_BUDGET_SCALE").ok().and_then(|s| s.parse::<f64>().ok()).unwrap_or(1.0);
         *self.budget.lock().unwrap() = Some(Instant::now() + Duration::from_secs_f64(secs));
     }
     pub fn over_budget(&self) -> bool {
